@@ -70,6 +70,9 @@ def gen_layout(rng, strata=()):
     return text, {"n_theta": n_theta, "n_eta": n_eta, "n_eps": n_eps, "npar": npar, "used": sorted(g.used)}
 
 
+INTERNAL = []
+
+
 def edits():
     import pharmpy.modeling as pm
 
@@ -350,8 +353,25 @@ def run_edits(c, text, seq, seed, plan=None):
         st = r.getstate()
         try:
             new = E[name](model, r, touched)
-        except Exception:
-            c.hit("edit_refused:" + name)
+        except Exception as e:
+            from vp import histories
+
+            if histories.classify_exception(e) == "internal":
+                # the edit (its write-back) died with an internal error: the edited model cannot be written at all
+                c.hit(f"edit_internal_error:{name}:{type(e).__name__}")
+                import traceback
+
+                fr = [f for f in traceback.extract_tb(e.__traceback__) if "pharmpy" in f.filename]
+                where = f"{fr[-1].filename.rsplit('/', 1)[-1]}:{fr[-1].name}" if fr else "?"
+                mm = denote.Mismatch(f"[internal] the edit {name} died with {type(e).__name__} in {where}: {str(e)[:80]}")
+                mm.model = model
+                mm.applied = list(applied) + [name]
+                mm.plan = list(done_plan) + [(name, st)]
+                mm.touched = set(touched)
+                mm.orig_names = list(orig_names)
+                raise mm
+            else:
+                c.hit("edit_refused:" + name)
             if plan is not None:
                 break
             continue
@@ -679,7 +699,7 @@ def classify(mm, orig_text, applied, model, replay=None):
     removes_theta = "remove_theta" in applied or "change_and_remove_theta" in applied
     edits_xn_member = bool(touched & xn_members)
     if multi and replay is not None and ("THETA(" in what or "number of thetas" in what or "[reread] parameter" in what
-                                         or "cannot be read back" in what):
+                                         or "cannot be read back" in what or "[internal]" in what):
         try:
             has_xn = bool(re.search(r"\)\s*x\s*\d", thetas_txt))
             if has_xn and (edits_xn_member or removes_theta) and replay(expand_layout(orig_text)):
